@@ -5,11 +5,23 @@
   Reading guide. `lexTopoSort psh g key` is the model of `lexicographical_topological_sort`
   (`Model/TopoSort.lean`; `psh` = iteration orders of the `reverse_graph` hash sets), `resolve p o …`
   the model of `resolve` (`Model/StateRes.lean`; `o` = iteration orders of all hash containers,
-  `p` = the authorization functions of C08/C09). `Spec/StateResV2.lean` is the specification.
+  `p` = the authorization functions of C08/C09, `realParams r` = those of the repository for the
+  rule set `r`). `Spec/StateResV2.lean` is the specification: `resolveV2 = resolveWith false`;
+  `resolveV2F4 = resolveWith true` is the specification carrying exactly the one known deviation F4.
+  State maps are compared up to lookup (`StEq`), outcomes by `ResEq` (same failure, or `StEq`).
+
+  Every stage theorem stands on its own; `resolve_refines_spec_*` assemble them.
+  The room hypothesis `SpecWF` (`Lemmas/StateResSpec.lean`) is C06's `RoomWF` plus: state maps and
+  auth chains are maps/sets (`SetsWF`, duplicate-free chains), no event of the full conflicted set
+  is itself an `m.room.create` event, the store is closed under `auth_events` and acyclic, the state
+  sets mention known events only, and authorization reads only the selected auth types
+  (`AuthLocal`, C09 — a theorem for `realParams`, see `authLocal_real`).
 -/
-import RumaModel.Lemmas.StateResTopo
+import RumaModel.Lemmas.StateResWitness
 namespace Ruma.Props.C07
 open Ruma Ruma.StateRes Ruma.Spec.StateResV2
+
+/-! ## The topological sort -/
 
 /-- The code's `TieBreaker` order is the comparison the spec words: greater power level first, then
 earlier `origin_server_ts`, then smaller event id. -/
@@ -42,7 +54,274 @@ theorem lexTopoSort_dangling {g : Graph} (hg : g.nodes.Nodup) {psh : Id → List
       KahnRun g (Kf kf) [] out ∧ candidates g out = [] :=
   ⟨_, lexTopoSort_eq_lexTopo hg hpsh hk, lexTopo_general hg kf⟩
 
+/-! ## Stages of `resolve` -/
+
+/-- **separate_spec.** For state maps with pairwise different keys and every iteration order:
+`separate` returns the spec's unconflicted state map (same lookups), its conflicted map lists
+exactly the spec's conflicted state set, and the "no conflict" early return is taken exactly when
+that set is empty. -/
+theorem separate_spec {o : Orders} (ho : o.Valid) {sets : List StateMap} (wf : SetsWF sets) :
+    StEq (separate o sets).1 (unconflicted sets) ∧
+    (∀ id, id ∈ confIds (separate o sets).2 ↔ id ∈ conflictedSet sets) ∧
+    ((separate o sets).2.isEmpty = (conflictedSet sets).isEmpty) := by
+  refine ⟨?_, ?_, ?_⟩
+  · intro k; apply option_ext; intro v
+    rw [separate_clean ho wf, get_unconflicted]
+  · intro id
+    rw [separate_conf ho wf, mem_conflictedSet wf]
+  · have : (separate o sets).2 = [] ↔ conflictedSet sets = [] := by
+      rw [separate_conf_nil ho wf, conflictedSet_isEmpty wf]
+    cases h1 : (separate o sets).2 with
+    | nil => simp [this.mp h1]
+    | cons a t =>
+      cases h2 : conflictedSet sets with
+      | nil => rw [this.mpr h2] at h1; cases h1
+      | cons b t' => rfl
+
+/-- **authDiff_spec.** `get_auth_chain_diff` computes the spec's auth difference (every event that is
+in some but not in every auth chain) — as a set: the two duplicate-free lists are permutations of
+each other, for duplicate-free chains and every iteration order of `id_counts`. -/
+theorem authDiff_spec {o : Orders} (ho : o.Valid) {chains : List (List Id)}
+    (hn : ∀ c ∈ chains, c.Nodup) :
+    (authChainDiff o chains).Perm (authDifference chains) := by
+  rw [List.perm_ext_iff_of_nodup (nodup_authChainDiff ho _) (by unfold authDifference; exact nodup_dedup _)]
+  intro id
+  rw [mem_authChainDiff ho hn, mem_authDifference]
+
+/-- **fullConflicted_spec.** The model's `all_conflicted` (auth difference ∪ conflicted events, known
+events only, in whatever order the hash set iterates) is the spec's full conflicted set. -/
+theorem fullConflicted_spec {o : Orders} (ho : o.Valid) (fetch : Id → Option Event)
+    {sets : List StateMap} (wf : SetsWF sets) {chains : List (List Id)} (hn : ∀ c ∈ chains, c.Nodup) :
+    (fullConflicted o fetch (authChainDiff o chains) (separate o sets).2).Perm
+      (fullConflictedSet fetch sets chains) := by
+  rw [List.perm_ext_iff_of_nodup (nodup_fullConflicted ho _ _ _) (by unfold fullConflictedSet; exact nodup_dedup _)]
+  exact mem_allConf_iff ho wf hn
+
+/-- **powerEvent_spec.** `is_power_event` is the spec's power-event predicate on every event that is
+not an `m.room.create` event with empty state key. -/
+theorem powerEvent_spec (p : Params) (e : Event) (hnc : ¬ (e.type = tCreate ∧ e.stateKey = some [])) :
+    StateRes.isPowerEvent p e = Spec.StateResV2.isPowerEvent p e := by
+  apply isPowerEvent_eq_spec
+  simp only [isCreate, isTypeAndKey]
+  by_cases h1 : e.type = tCreate
+  · have : e.stateKey ≠ some [] := fun h => hnc ⟨h1, h⟩
+    simp [h1, this]
+  · simp [h1]
+
+/-- **The create-event deviation.** The code (like Synapse) treats `m.room.create` with empty state
+key as a power event; the spec's definition does not. It cannot be observed under `SpecWF`: there
+no event of the full conflicted set is a create event (`SpecWF.notCreate`), and `is_power_event` is
+only ever applied to events of that set. -/
+theorem powerEvent_create_deviation (p : Params) (e : Event) (h : e.type = tCreate ∧ e.stateKey = some []) :
+    StateRes.isPowerEvent p e = true ∧ Spec.StateResV2.isPowerEvent p e = false := by
+  have h4 : tCreate ≠ tPowerLevels := by decide
+  have h5 : tCreate ≠ tJoinRules := by decide
+  have h3 : tCreate ≠ tMember := by decide
+  constructor
+  · simp [StateRes.isPowerEvent, h.1, h.2]
+  · simp [Spec.StateResV2.isPowerEvent, h.1, h4, h5, h3]
+
+/-- **powerSort_spec.** In a store closed under `auth_events` and acyclic, let `A` be the model's
+full conflicted set in any order and `F` the spec's (same elements), every event of which cites the
+room's create event `c0` and at most one power-levels event and is not itself a create event. Then
+`reverse_topological_power_sort` applied to the power events of `A` — graph building by depth-first
+search, the per-call creator cache filled in whatever order the graph's keys iterate, Kahn's
+algorithm on a binary heap — returns exactly the spec's reverse topological power ordering of the
+power events of `F` enlarged by their auth chains inside `F`; or both fail (a sender's power level
+is unreadable). For every iteration order of every hash container. -/
+theorem powerSort_spec (p : Params) {o : Orders} (ho : o.Valid) {fetch : Id → Option Event} {ids : List Id}
+    (ok : StoreOk fetch ids) {A F : List Id} (hAn : A.Nodup) (hFn : F.Nodup) (hAF : ∀ x, x ∈ A ↔ x ∈ F)
+    {c0 : Event} (hwf : ∀ n ∈ F, ∃ e, fetch n = some e ∧ EventWF fetch c0 e)
+    (hnc : ∀ n ∈ F, ∀ e, fetch n = some e → isCreate e = false) :
+    powerSort p o fetch A (A.filter (isPowerEventId p fetch)) =
+      reversePowerOrdering p fetch (powerEventsWithChains p fetch F) :=
+  StateRes.powerSort_spec p ho ok hAn hFn hAF hwf hnc
+
+/-- **iterativeAuth_spec.** `iterative_auth_check` is the spec's iterative auth checks, for every
+event list and starting state, provided authorization reads the state only at the selected auth
+types. (The code seeds the auth state with *all* of the event's auth events; the spec consults them
+only for the selected types — unobservable by that hypothesis.) -/
+theorem iterativeAuth_spec {p : Params} (hl : AuthLocal p) (fetch : Id → Option Event)
+    (ids : List Id) (st : StateMap) :
+    iterativeAuthCheck p fetch ids st = iterativeAuthChecks p fetch ids st :=
+  iterativeAuthCheck_eq_spec hl fetch ids st
+
+/-- **authLocal_real.** The hypothesis `AuthLocal` holds for the repository's authorization
+functions (the C08/C09 model) under every consistent rule set — in particular for every room
+version: it is C09's non-interference theorem. -/
+theorem authLocal_real (r : AuthRules) (hc : r.Consistent) : AuthLocal (realParams r) :=
+  authLocal_realParams r hc
+
+/-- Every room version's rules are consistent. -/
+example : ∀ v r, AuthRules.ofVersion? v = some r → r.Consistent := by
+  intro v r h
+  unfold AuthRules.ofVersion? at h
+  split at h <;> first | (cases h; decide) | cases h
+
+/-! ## The mainline sort and finding F4 -/
+
+/-- The full-strength statement: `mainline_sort` is the spec's mainline ordering. **False** for the
+code as it is (F4), see `mainlineSortSpecStatement_refuted`. -/
+def mainlineSortSpecStatement : Prop :=
+  ∀ (fetch : Id → Option Event) (ids : List Id), StoreOk fetch ids →
+  ∀ (fuel : Nat), ids.length < fuel → ∀ (o : Orders), o.Valid → ∀ (l : List Id), l.Nodup →
+  (∀ id ∈ l, (fetch id).isSome = true) → ∀ (pl : Option Id),
+  (∀ pid, pl = some pid → (fetch pid).isSome = true) →
+    mainlineSort o fetch fuel l pl = .ok (mainlineOrder false fetch fuel (pl.bind fetch) l)
+
+/-- **mainlineSort_spec_partial.** On a store that is closed under `auth_events`, acyclic and smaller
+than the loop bound, for every duplicate-free list of known events, every resolved power-levels
+event and every iteration order of `order_map`: `mainline_sort` is the spec's mainline ordering
+*carrying exactly the F4 deviation* (an event without mainline ancestor takes the position of the
+oldest mainline event). What is missing for the full statement is exactly F4. -/
+theorem mainlineSort_spec_partial {fetch : Id → Option Event} {ids : List Id} (ok : StoreOk fetch ids)
+    {fuel : Nat} (hfuel : ids.length < fuel) {o : Orders} (ho : o.Valid) {l : List Id} (hn : l.Nodup)
+    (hl : ∀ id ∈ l, (fetch id).isSome = true) (pl : Option Id)
+    (hpl : ∀ pid, pl = some pid → (fetch pid).isSome = true) :
+    mainlineSort o fetch fuel l pl = .ok (mainlineOrder true fetch fuel (pl.bind fetch) l) :=
+  mainlineSort_eq_devspec ok hfuel ho hn hl pl hpl
+
+/-- **mainlineSort_spec_noF4.** Where F4 cannot show — all listed events have a mainline ancestor, or
+none has (`NoF4`) — `mainline_sort` is the spec's mainline ordering. -/
+theorem mainlineSort_spec_noF4 {fetch : Id → Option Event} {ids : List Id} (ok : StoreOk fetch ids)
+    {fuel : Nat} (hfuel : ids.length < fuel) {o : Orders} (ho : o.Valid) {l : List Id} (hn : l.Nodup)
+    (hl : ∀ id ∈ l, (fetch id).isSome = true) (pl : Option Id)
+    (hpl : ∀ pid, pl = some pid → (fetch pid).isSome = true)
+    (hf4 : NoF4 fetch fuel (pl.bind fetch) l) :
+    mainlineSort o fetch fuel l pl = .ok (mainlineOrder false fetch fuel (pl.bind fetch) l) := by
+  rw [mainlineSort_eq_devspec ok hfuel ho hn hl pl hpl, mainlineOrder_dev_eq hf4]
+
+/-- **Machine-checked refutation of the full statement** by the F4 witness (`corpus/C07`): with
+`$pl` the resolved power-levels event, the code orders `[$t2, $t1]` (both at depth 0, then by
+timestamp), the spec `[$t1, $t2]` (`$t1` has no mainline ancestor and comes first). -/
+theorem mainlineSortSpecStatement_refuted : ¬ mainlineSortSpecStatement := by
+  intro h
+  have hl : ∀ id ∈ [bs "$t1", bs "$t2"], (fetchOf F4Witness.store id).isSome = true := by decide +kernel
+  have hpl : ∀ pid, some (bs "$pl") = some pid → (fetchOf F4Witness.store pid).isSome = true := by
+    intro pid hp; cases hp; decide +kernel
+  have h1 := h (fetchOf F4Witness.store) _ F4Witness.storeOk 6 (by decide) Orders.id
+    F4Witness.ordersId_valid [bs "$t1", bs "$t2"] (by decide) hl (some (bs "$pl")) hpl
+  have h2 := mainlineSort_spec_partial F4Witness.storeOk (fuel := 6) (by decide)
+    F4Witness.ordersId_valid (l := [bs "$t1", bs "$t2"]) (by decide) hl (some (bs "$pl")) hpl
+  rw [h2] at h1
+  have hb : (some (bs "$pl")).bind (fetchOf F4Witness.store) = some F4Witness.pl := by rfl
+  rw [hb, F4Witness.order_dev, F4Witness.order_spec] at h1
+  have h3 : [bs "$t2", bs "$t1"] = [bs "$t1", bs "$t2"] := Except.ok.inj h1
+  revert h3; decide
+
+/-! ## `resolve` -/
+
+/-- **resolve_keeps_unconflicted.** Whatever else happens (any store, auth chains, parameters,
+iteration orders): if `resolve` succeeds, every entry of the spec's unconflicted state map is in the
+result — the final overlay wins. -/
+theorem resolve_keeps_unconflicted (p : Params) {o : Orders} (ho : o.Valid) (store : List Event)
+    {sets : List StateMap} (wf : SetsWF sets) (chains : List (List Id)) {m : StateMap}
+    (h : resolve p o store sets chains = .ok m) :
+    ∀ k v, AL.get (unconflicted sets) k = some v → AL.get m k = some v := by
+  intro k v hu
+  have hclean : AL.get (separate o sets).1 k = some v := by
+    rw [separate_clean ho wf, ← get_unconflicted]; exact hu
+  rw [resolve_eq_tail] at h
+  split at h
+  · cases h; exact hclean
+  · split at h
+    · cases h
+    · unfold resolveTail at h
+      split at h
+      · cases h
+      · simp only [] at h
+        split at h
+        · cases h
+        · split at h
+          · cases h
+          · cases h
+            rw [extend_get _ _ k (separate_clean_keys o sets), hclean]; rfl
+
+/-- The full-strength statement: under `SpecWF`, `resolve` is the spec's state resolution v2.
+**False** for the code as it is (F4), see `resolveRefinesSpecStatement_refuted`. -/
+def resolveRefinesSpecStatement : Prop :=
+  ∀ (p : Params) (o : Orders), o.Valid → ∀ (store : List Event) (sets : List StateMap)
+    (chains : List (List Id)) (c0 : Event), SpecWF p store sets chains c0 →
+    ResEq (resolve p o store sets chains) (resolveV2 p store sets chains)
+
+/-- **resolve_refines_spec_partial.** For every room satisfying `SpecWF`, all parameters with
+`AuthLocal` and all iteration orders: `resolve` fails exactly as, or returns the same state (same
+lookups) as, the specification carrying exactly the F4 deviation (`resolveV2F4`: steps 1–5 of the
+spec, with an event without mainline ancestor placed at the oldest mainline position in step 3).
+What is missing for `resolveRefinesSpecStatement` is exactly F4. -/
+theorem resolve_refines_spec_partial (p : Params) {o : Orders} (ho : o.Valid) (store : List Event)
+    {sets : List StateMap} {chains : List (List Id)} {c0 : Event} (wf : SpecWF p store sets chains c0) :
+    ResEq (resolve p o store sets chains) (resolveV2F4 p store sets chains) :=
+  resolve_refines_dev p ho store wf
+
+/-- **resolve_refines_spec_noF4.** If moreover F4 cannot show (`F4Free`: whichever power-levels event
+of the store is the resolved one, the events left for the mainline ordering all have a mainline
+ancestor or none has), `resolve` is the spec's state resolution v2. -/
+theorem resolve_refines_spec_noF4 (p : Params) {o : Orders} (ho : o.Valid) (store : List Event)
+    {sets : List StateMap} {chains : List (List Id)} {c0 : Event} (wf : SpecWF p store sets chains c0)
+    (hf4 : F4Free p store sets chains) :
+    ResEq (resolve p o store sets chains) (resolveV2 p store sets chains) := by
+  have := resolve_refines_dev p ho store wf
+  rw [resolveWith_dev_eq hf4] at this
+  exact this
+
+/-- `SpecWF` is satisfiable: the F4 witness room with the repository's room-version-6 rules. -/
+example : SpecWF (realParams AuthRules.v6) F4Witness.store F4Witness.sets F4Witness.chains F4Witness.c :=
+  F4Witness.specWF
+
+/-- `SpecWF` and `F4Free` are satisfiable together: the same room with `$t1` also citing the
+power-levels event (both topics then have the mainline ancestor `$pl`). -/
+example :
+    let t1' : Event := { F4Witness.t1 with authEvents := [bs "$c", bs "$ma", bs "$pl"] }
+    F4Free (realParams AuthRules.v6) [F4Witness.c, F4Witness.ma, t1', F4Witness.pl, F4Witness.t2]
+      F4Witness.sets F4Witness.chains := by
+  intro t1' P hP
+  apply noF4_of_b
+  revert P
+  decide +kernel
+
+/-- **f4_deviation_observable.** On the F4 witness room (room version 6 rules; `corpus/C07`, replayed
+against the real `resolve` on every run) the model of `resolve` — under every iteration order —
+resolves the topic to `$t1`, as does the deviation-carrying spec, while the specification resolves
+it to `$t2`. -/
+theorem f4_deviation_observable {o : Orders} (ho : o.Valid) :
+    F4Witness.topicOf (resolve F4Witness.params o F4Witness.store F4Witness.sets F4Witness.chains)
+      = some (bs "$t1") ∧
+    F4Witness.topicOf (resolveV2F4 F4Witness.params F4Witness.store F4Witness.sets F4Witness.chains)
+      = some (bs "$t1") ∧
+    F4Witness.topicOf (resolveV2 F4Witness.params F4Witness.store F4Witness.sets F4Witness.chains)
+      = some (bs "$t2") := by
+  refine ⟨?_, F4Witness.dev_topic, F4Witness.spec_topic⟩
+  rw [F4Witness.topicOf_resEq (resolve_refines_dev _ ho _ F4Witness.specWF)]
+  exact F4Witness.dev_topic
+
+/-- **Machine-checked refutation of the full statement** by the F4 witness. -/
+theorem resolveRefinesSpecStatement_refuted : ¬ resolveRefinesSpecStatement := by
+  intro h
+  have h1 := h F4Witness.params Orders.id F4Witness.ordersId_valid F4Witness.store F4Witness.sets
+    F4Witness.chains F4Witness.c F4Witness.specWF
+  have h2 := F4Witness.topicOf_resEq h1
+  rw [(f4_deviation_observable F4Witness.ordersId_valid).1,
+    (f4_deviation_observable F4Witness.ordersId_valid).2.2] at h2
+  revert h2; decide
+
 end Ruma.Props.C07
 #print axioms Ruma.Props.C07.tieBreaker_eq_spec
 #print axioms Ruma.Props.C07.lexTopoSort_spec
 #print axioms Ruma.Props.C07.lexTopoSort_dangling
+#print axioms Ruma.Props.C07.separate_spec
+#print axioms Ruma.Props.C07.authDiff_spec
+#print axioms Ruma.Props.C07.fullConflicted_spec
+#print axioms Ruma.Props.C07.powerEvent_spec
+#print axioms Ruma.Props.C07.powerEvent_create_deviation
+#print axioms Ruma.Props.C07.powerSort_spec
+#print axioms Ruma.Props.C07.iterativeAuth_spec
+#print axioms Ruma.Props.C07.authLocal_real
+#print axioms Ruma.Props.C07.mainlineSort_spec_partial
+#print axioms Ruma.Props.C07.mainlineSort_spec_noF4
+#print axioms Ruma.Props.C07.mainlineSortSpecStatement_refuted
+#print axioms Ruma.Props.C07.resolve_keeps_unconflicted
+#print axioms Ruma.Props.C07.resolve_refines_spec_partial
+#print axioms Ruma.Props.C07.resolve_refines_spec_noF4
+#print axioms Ruma.Props.C07.f4_deviation_observable
+#print axioms Ruma.Props.C07.resolveRefinesSpecStatement_refuted
